@@ -32,6 +32,7 @@ Definition chk_C20 (c o : value) : bool :=
   | VL [VI 0; VI hc; VI mc; VI http; VI live] => (hc =? 0) && (mc =? 0) && (http =? 0) && (live =? 0)
   | VL [VI 1; VI enc; a; b] => as_bool enc && veqb a b
   | VL [VI 2; VI enc; a; b] => as_bool enc && veqb a b
+  | VL [VI 5; VI calls; VI http; VI live] => (calls =? 0) && (http =? 0) && (live =? 0)
   | VL [VI 4; VI still; VI enc; VI calls] => (still =? 0) && (enc =? 0) && (calls =? 0)
   | VL [VI 3; VI ntls; VI nenc; VI live; VI http; VI calls; VI answered] =>
       (nenc =? ntls) && (live =? 0) && (http =? 0) && (calls =? ntls) && (answered =? ntls)
